@@ -813,6 +813,8 @@ def oracle_with(plan, tr, refs):
                 continue
             if _undefined_under_fallback(plan, op, got, expi):
                 continue
+            if plan.get('sub') == 'admit' and _cls(got) != 'result' and _cls(expi) != 'result':
+                continue          # an invalid message: both paths reject it (with whatever error)
             if got != expi:
                 clause = 'C08.r' if _uses_loaded(plan, tr, i) else 'C08.h'
                 out.append({'property': 'C08', 'clause': clause, 'op': op['op'],
@@ -909,6 +911,8 @@ def specs_needed(plan, tr):
 
 # ----------------------------------------------------------------------------
 def shape(plan, tr=None):
+    if plan.get('sub') == 'admit':
+        return ('c08-admit', plan['msgs'][0]['ref'])
     if plan.get('sub') == 'each':
         return ('c08-each', plan['msgs'][0]['ref'], plan['clients'][0]['compiled'])
     return (plan['family'], plan['limit'], tuple(c['compiled'] for c in plan['clients']),
